@@ -8,6 +8,7 @@ import json
 import os
 import re
 import shutil
+import signal
 import subprocess
 import time
 
@@ -33,7 +34,7 @@ def trace_save(bindir, dic, wd):
     env = dict(os.environ, TOKIO_WORKER_THREADS="4")
     p = subprocess.Popen(["strace", "-f", "-y", "-o", tr, "-e", "trace=openat,open,creat,write,rename,renameat,renameat2,fsync,fdatasync,ftruncate,unlink,unlinkat,mkdir",
                           os.path.join(bindir, "chokan-server"), "-p", str(port), "-d", dic, "-u", ud, "-s", "1"],
-                         stdout=subprocess.DEVNULL, stderr=subprocess.DEVNULL, env=env)
+                         stdout=subprocess.DEVNULL, stderr=subprocess.DEVNULL, env=env, start_new_session=True)
     try:
         ok = S.wait_until(lambda: os.path.exists(os.path.join(ud, "user.dic")), 8.0)
         # learn something so that the traced save writes both files
@@ -46,7 +47,11 @@ def trace_save(bindir, dic, wd):
         ok = ok and S.wait_until(lambda: "試験0" in open(os.path.join(ud, "user.dic"), encoding="utf-8", errors="replace").read(), 6.0)
         time.sleep(1.3)
     finally:
-        p.kill()
+        # strace and the traced server: killing strace alone would detach it and leave the server running
+        try:
+            os.killpg(p.pid, signal.SIGKILL)
+        except OSError:
+            p.kill()
         p.wait()
     if not ok or not os.path.exists(tr):
         return None
